@@ -1,4 +1,6 @@
 #include "vdrive.hpp"
+#include <atomic>
+#include <ctime>
 #include "base/application.hpp"
 #include "base/configuration.hpp"
 #include "base/logger.hpp"
@@ -18,6 +20,7 @@ using namespace icinga;
 static std::map<std::string, OpFn>& Ops() { static std::map<std::string, OpFn> m; return m; }
 static std::vector<std::function<void()>>& CaseEnds() { static std::vector<std::function<void()>> v; return v; }
 static std::string l_Scratch;
+static std::string l_HbPath;
 static long l_Case = -1;
 static std::ostream *l_Out = &std::cout;
 static bool l_ObsAll = true;
@@ -40,6 +43,18 @@ void Out(const std::string& line)
 		l_Out->flush();
 }
 std::string ScratchDir() { return l_Scratch; }
+// An op that waits legitimately for a long time without producing output (a real-time run, a machine-wide slot) says so:
+// the runner kills a vdrive whose output AND heartbeat file have not grown for VERIF_STALL_S seconds.  Called from
+// harness-owned loops only, never from code paths of the implementation (a spinning implementation must stay silent).
+void Heartbeat()
+{
+	static std::atomic<long> last{0};
+	long now = (long)time(nullptr);
+	if (l_HbPath.empty() || now == last.load()) return;
+	last.store(now);
+	std::ofstream hb(l_HbPath, std::ios::app);
+	hb << '.';
+}
 long CaseId() { return l_Case; }
 
 std::string HexEnc(const std::string& s)
@@ -98,7 +113,7 @@ int main(int argc, char **argv)
 	std::ifstream in(argv[2]);
 	if (!in) { std::cerr << "cannot open script\n"; return 2; }
 	std::ofstream outf;
-	if (argc > 3) { outf.open(argv[3]); l_Out = &outf; }
+	if (argc > 3) { outf.open(argv[3]); l_Out = &outf; l_HbPath = std::string(argv[3]) + ".hb"; }
 
 	Utility::MkDirP(l_Scratch + "/data", 0700);
 	Utility::MkDirP(l_Scratch + "/run", 0700);
